@@ -49,7 +49,7 @@ def run(tier):
             v.violation(cc, "accepted-should-reject", info)
             continue
         if s != "ok":
-            v.violation(cc, "decode-" + s, info)
+            v.violation(cc, enc.decode_symptom(r["bytes"]), info)
             continue
         e = c["exp"]
         if c1 != e or c2 != e:
